@@ -316,3 +316,104 @@ Definition eof_lines_okb (segs : list seg) : bool :=
   lone_linesb (fm_lines segs) (length segs - 1)
   && existsb (fun ln => ll_type ln IS LLT_Eof) (fm_lines segs)
   && match nth_error (fm_marks segs) (length segs - 1) with Some false => true | _ => false end.
+
+(* ------------------------------------------------------------------ *)
+(* Acceptance predicate of Proofs/FormatIdemProofs.v (format_idempotent), evaluated by the driver unit `idemhyp`.
+   The checks, in order (idem_hyp_checks):
+     0 the output scans again (the lexer does not run out of fuel)
+     1 the scan of the output cuts it where the reconstructor put the pieces: same whitespace pieces, same token texts
+     2 and gives every token the raw kind it had in the input
+     3 no `asm` keyword
+     4 the first run ignores no token     5 the second run ignores no token
+     6 format_multiline_strings = false, or no multi-line string literal
+     7 every token is decided by the search of the first run (or is the final Eof token, set by EofNewline)
+     8 the spaces_before the second search reads are those the first search read *)
+Fixpoint glue_list (rs : rsettings) (mb : bool) (l : list ftoken) : list bytes :=
+  match l with
+  | [] => []
+  | p :: r => emit_ws rs mb p :: glue_list rs (is_sl_comment (t_ty (fst p))) r
+  end.
+
+Fixpoint list_eqb {A} (eqb : A -> A -> bool) (a b : list A) : bool :=
+  match a, b with
+  | [], [] => true
+  | x :: a', y :: b' => eqb x y && list_eqb eqb a' b'
+  | _, _ => false
+  end.
+
+Definition not_asmb (t : RawTokenType) : bool :=
+  match t with RTT_Keyword KK_Asm | RTT_IdentifierOrKeyword KK_Asm => false | _ => true end.
+
+Fixpoint mark_nth (i : nat) (l : list bool) : list bool :=
+  match l, i with
+  | [], _ => []
+  | _ :: t, O => true :: t
+  | b :: t, S j => b :: mark_nth j t
+  end.
+
+(* the decisions of the first phase of the search, in the order they are applied *)
+Definition fm_plan1 alnum cfg segs : list (nat * decision) :=
+  plan_of_events (rev (ss_log (wrap_phase1 (cfg_ws cfg) (map tokinfo_of (fm_l4 alnum segs)) (fm_lines segs)))).
+
+Definition decided_marks alnum cfg segs : list bool :=
+  fold_left (fun acc (pd : nat * decision) => mark_nth (fst pd) acc) (fm_plan1 alnum cfg segs) (map (fun _ => false) segs).
+
+Definition has_eof_line (lines : list lline) : bool := existsb (fun ln => ll_type ln IS LLT_Eof) lines.
+
+(* token i (of n) is the final token, an Eof token, and EofNewline runs *)
+Definition eof_set (lines : list lline) (n i : nat) (ty : TokenType) : bool :=
+  Nat.eqb (S i) n && is_eof ty && has_eof_line lines.
+
+Definition sp_list (l : list ftoken) : list N := map (fun p : ftoken => f_sp (snd p)) l.
+
+Definition idem_hyp_checks alnum cfg (segs : list seg) : list bool :=
+  let F := fm_final alnum cfg segs in
+  let l4 := fm_l4 alnum segs in
+  match lex_segments (reconstruct (cfg_rs cfg) F) with
+  | None => [false]
+  | Some segs2 =>
+      [ true;
+        list_eqb bytes_eqb (map seg_ws segs2) (glue_list (cfg_rs cfg) false F)
+        && list_eqb bytes_eqb (map seg_content segs2) (map (fun p : ftoken => t_content (fst p)) F);
+        list_eqb RawTokenType_eqb (map seg_ty segs2) (map seg_ty segs);
+        forallb not_asmb (map seg_ty segs);
+        forallb negb (fm_marks segs);
+        forallb negb (fm_marks segs2);
+        negb (c_fms cfg) || forallb (fun tok => negb (is_ml_string (t_ty tok))) (fm_toks segs);
+        forallb (fun x : (nat * bool) * ftoken =>
+                   snd (fst x) || eof_set (fm_lines segs) (length segs) (fst (fst x)) (t_ty (fst (snd x))))
+                (combine (combine (seq 0 (length segs)) (decided_marks alnum cfg segs)) l4);
+        list_eqb N.eqb (sp_list (fm_l4 alnum segs2)) (sp_list l4) ]
+  end.
+
+Definition idem_hypb alnum cfg segs : bool := forallb (fun b : bool => b) (idem_hyp_checks alnum cfg segs).
+
+(* ------------------------------------------------------------------ *)
+(* Acceptance predicate of Proofs/LexerCrlfProofs.v (lex_crlf) / FormatCrlfLinkProofs.v (format_crlf_input_linked), evaluated by the
+   driver unit `crlfhyp`: no token text contains a LF or a CR; a directive token has its closing delimiter
+   (copies of the definitions of Proofs/LexerRelayoutProofs.v, equal to them by FormatCrlfLinkProofs.crlf_link_okb_eq) *)
+Definition lk_comment_body (b : byte) (c : bytes) : BlockCommentKind * bytes :=
+  if b =? 123 then (BCK_Brace, c) else (BCK_ParenStar, tl c).
+Definition lk_comment_unterminated (b : byte) (c : bytes) : bool :=
+  match find_block_comment_end (fst (lk_comment_body b c)) (snd (lk_comment_body b c)) with None => true | Some _ => false end.
+Definition lk_dir_terminated (k : BlockCommentKind) (q : bytes) : bool :=
+  match parse_directive_end (find_directive_expr_end (S (length q))) k q with DEnd e => Nat.eqb e (length q) | _ => false end.
+Definition lk_closedb (b : byte) (q : bytes) (ty : RawTokenType) : bool :=
+  match ty with
+  | RTT_Comment ck => negb (match ck with CoK_InlineLine | CoK_IndividualLine => true | _ => false end) && negb (lk_comment_unterminated b q)
+  | RTT_ConditionalDirective _ | RTT_CompilerDirective => lk_dir_terminated (fst (lk_comment_body b q)) (tl (snd (lk_comment_body b q)))
+  | _ => false
+  end.
+Definition lk_open_commentb (b : byte) (q : bytes) (ty : RawTokenType) : bool :=
+  match ty with
+  | RTT_Comment ck => negb (match ck with CoK_InlineLine | CoK_IndividualLine => true | _ => false end) && lk_comment_unterminated b q
+  | _ => false
+  end.
+Definition crlf_seg_okb (sg : seg) : bool :=
+  match sg with
+  | (_, [], _) => true
+  | (_, b :: q, ty) =>
+      forallb (fun x => negb (is_eol x)) (b :: q)
+      && (negb ((b =? 123) || ((b =? 40) && next_is 42 q)) || lk_closedb b q ty || lk_open_commentb b q ty)
+  end.
+Definition crlf_link_okb (segs : list seg) : bool := forallb crlf_seg_okb segs.
